@@ -204,6 +204,115 @@ EXPECT = {
 CANON_KEEP = {"ctes_from_query", "select_from_query", "table_with_joins", "all"}
 
 
+def block_value(n):
+    while n is not None and n["k"] == "block":
+        st = n["stmts"]
+        if not st or st[-1]["k"] != "expr" or st[-1].get("semi"):
+            return None
+        n = st[-1]["e"]
+    return n
+
+
+def _alias_preserving(h, src):
+    """Does the select-item mapper `h` (fn(&SelectItem) -> SelectItem) keep the alias of every ExprWithAlias item?  -> (bool, why)"""
+    m = block_value(h.body)
+    if m is None or m["k"] != "match":
+        return False, "%s is not a single match over the item" % h.name
+    seen = False
+    for a in m["arms"]:
+        pats = a["pat"]["cases"] if a["pat"]["k"] == "or" else [a["pat"]]
+        hit = [p for p in pats if p["k"] == "struct" and p["path"]["segs"][-1] == "ExprWithAlias"]
+        if not hit:
+            continue
+        seen = True
+        if len(pats) > 1 or a.get("guard"):
+            return False, "the ExprWithAlias arm of %s is shared with other item kinds" % h.name
+        binds = {f["name"]: show(f["pat"], 0) if f.get("pat") else f["name"] for f in hit[0].get("fields", [])}
+        if "alias" not in binds:
+            return False, "the ExprWithAlias arm of %s does not bind the alias" % h.name
+        b = block_value(a["body"]) if a["body"]["k"] == "block" else a["body"]
+        if not (b is not None and b["k"] == "struct" and b["path"]["segs"][-1] == "ExprWithAlias"):
+            return False, "the ExprWithAlias arm of %s returns %s" % (h.name, show(b, 50))
+        al = [f["e"] for f in b["fields"] if f["name"] == "alias"]
+        if not al or show(al[0], 0).replace(" ", "") not in (binds["alias"], binds["alias"] + ".clone()"):
+            return False, "the ExprWithAlias arm of %s rebuilds the item with alias %s" % (h.name, show(al[0], 30) if al else "<none>")
+    if not seen:
+        # items fall to a catch-all arm: alias kept only if that arm returns the item itself
+        for a in m["arms"]:
+            if a["pat"]["k"] in ("wild", "ident"):
+                t = show(a["body"], 0).replace(" ", "")
+                prm = [p["pat"]["name"] for p in h.params if not p.get("self")][0]
+                return (t in (prm + ".clone()", prm), "the catch-all arm of %s returns %s" % (h.name, t))
+        return False, "%s has no arm for ExprWithAlias" % h.name
+    return True, ""
+
+
+def translator_hooks(src):
+    """{dialect: {alias_kept, alias_why, list_kept, where}} for the trait default and every impl RelationToQueryTranslator (dialect_translation/*.rs)."""
+    DTM = "dialect_translation/mod.rs"
+
+    def q_alias(f):
+        prm = [p["pat"]["name"] for p in f.params if not p.get("self")]
+        if "projection" not in prm:
+            return False, "no `projection` parameter"
+        sel = [x for x in walk(f.body) if x["k"] == "struct" and x["path"]["segs"][-1] == "Select"]
+        if len(sel) != 1:
+            return False, "expected one ast::Select literal, found %d" % len(sel)
+        pe = [fl.get("e") for fl in sel[0]["fields"] if fl["name"] == "projection"]
+        if not pe:
+            return False, "ast::Select without projection"
+        e = pe[0]
+        if e is None or path_of(e) == "projection":
+            return True, ""
+        if path_of(e):
+            lets = [st for st in f.body["stmts"] if st["k"] == "let" and st["pat"]["k"] == "ident" and st["pat"]["name"] == path_of(e)]
+            if len(lets) != 1 or lets[0].get("init") is None:
+                return False, "projection is `%s`" % show(e, 40)
+            e = lets[0]["init"]
+        ch = []
+        x = e
+        while x is not None and x["k"] == "mcall":
+            ch.insert(0, x)
+            x = x["recv"]
+        ch.insert(0, x)
+        if x is None or path_of(x) != "projection" or [c["m"] for c in ch[1:]] not in (["iter", "map", "collect"], ["into_iter", "map", "collect"]):
+            return False, "projection is %s" % show(e, 60)
+        fa = ch[2]["args"][0]
+        hn = path_of(fa)
+        if not hn:
+            return False, "the items are mapped by %s" % show(fa, 40)
+        hs = [h for h in src.find_fns(name=hn.split("::")[-1], file=f.file) if not h.self_ty]
+        if len(hs) != 1:
+            return False, "mapper %s not found" % hn
+        return _alias_preserving(hs[0], src)
+
+    def c_list(f):
+        prm = [p["pat"]["name"] for p in f.params if not p.get("self")]
+        ta = [x for x in walk(f.body) if x["k"] == "struct" and x["path"]["segs"][-1] == "TableAlias"]
+        if len(ta) != 1:
+            return False
+        ce = [fl.get("e") for fl in ta[0]["fields"] if fl["name"] == "columns"]
+        return bool(ce) and (ce[0] is None or path_of(ce[0]) == "columns") and "columns" in prm
+
+    dq = [f for f in src.find_fns(name="query", file=DTM) if (f.self_ty or "").startswith("trait RelationToQueryTranslator")]
+    dc = [f for f in src.find_fns(name="cte", file=DTM) if (f.self_ty or "").startswith("trait RelationToQueryTranslator")]
+    if len(dq) != 1 or len(dc) != 1:
+        raise Anchor("trait defaults RelationToQueryTranslator::{query, cte}: found %d / %d" % (len(dq), len(dc)))
+    d_alias, d_list = q_alias(dq[0]), c_list(dc[0])
+    out = {}
+    for (file, _m, im) in src.impls:
+        if not file.startswith("dialect_translation/") or (im.get("trait") or "").split("<")[0].split("::")[-1] != "RelationToQueryTranslator" or im.get("test"):
+            continue
+        d = im["self_ty"]
+        qs = [f for f in src.find_fns(name="query", file=file, self_ty=d) if (f.trait or "").startswith("RelationToQueryTranslator")]
+        cs = [f for f in src.find_fns(name="cte", file=file, self_ty=d) if (f.trait or "").startswith("RelationToQueryTranslator")]
+        a = q_alias(qs[0]) if qs else d_alias
+        out[d] = {"alias_kept": a[0], "alias_why": a[1], "list_kept": c_list(cs[0]) if cs else d_list, "where": (qs[0].where() if qs else dq[0].where())}
+    if len(out) < 6:
+        raise Anchor("only %d impl RelationToQueryTranslator found (8 on the pinned tree)" % len(out))
+    return out
+
+
 def e7_e8(rep, src):
     rep.rule(
         "E7",
@@ -225,6 +334,7 @@ def e7_e8(rep, src):
         necessary="a CTE defined as `set_x` and referred to as \"set_x\" is another name for the reader (and for engines that fold unquoted identifiers): the rendered set operation is rejected with 'Unknown table'",
     )
     fns = {f.name: f for f in src.find_fns(file=RSQL, self_ty_re=r"^FromRelationVisitor", trait_re=r"^Visitor")}
+    list_ok, list_where, alias_fine = {}, {}, {}
     for nm in ("map", "reduce", "join", "set"):
         if nm not in fns:
             raise Anchor("FromRelationVisitor::%s not found" % nm)
@@ -239,7 +349,13 @@ def e7_e8(rep, src):
             continue
         cname, ccols, cq = ctes[0]["args"]
         where = "src/%s:%d" % (RSQL, ctes[0]["l"])
-        if "schema" not in comp_mentions(ccols, node):
+        list_ok[nm] = "schema" in comp_mentions(ccols, node)
+        list_where[nm] = (show(ccols, 100), where)
+        list_empty = show(ccols, 0).replace(" ", "") in ("vec![]", "vec!()", "Vec::new()", "vec!{}")
+        if not list_ok[nm] and (nm in ("join", "set") or not list_empty):
+            # join/set: the default join_projection is `*` and a set operation has no aliases of its own, the list is the only name the columns get;
+            # map/reduce: a non-empty list that is not the schema's overrides the (right) aliases with other names
+            alias_fine[nm] = None  # reported here: the naming table below stays silent
             rep.violation("E8", key + "@columns", "the CTE column list is not derived from the node's schema: %s" % show(ccols, 100), where)
         if "name" not in comp_mentions(cname, node):
             rep.violation("E7", key + "@name", "the CTE is not named after the node: %s" % show(cname, 80), where)
@@ -289,12 +405,39 @@ def e7_e8(rep, src):
                 if al and any(x["k"] == "mcall" and x["m"] == "name" for x in walk(al[0])):
                     alias_ok = True
             rep.instance("E8", key, {"node": nm, "select_item_constructors": kinds, "zipped_with_schema": zipped, "conditional": bool(conds), "alias_is_field_name": alias_ok})
+            reported = nm in alias_fine
+            alias_fine[nm] = False
             if kinds != ["ExprWithAlias"] or others:
                 rep.violation("E8", key, "select items are built with %s (expected only SelectItem::ExprWithAlias)" % (kinds + [show(o, 40) for o in others[:2]]), where)
             elif conds:
                 rep.violation("E8", key, "the select item (or its alias) is built conditionally", where)
             elif not zipped or not alias_ok:
                 rep.violation("E8", key, "the alias is not the name of the schema field zipped at the same position", where)
+            elif not reported:
+                alias_fine[nm] = True
+    # Map / Reduce columns are named twice -- by the CTE column list and by the item aliases -- and a dialect needs one of the two to survive its own hooks:
+    # aliases survive `query` (trait default: the projection is passed on; an override must map items alias-preservingly), the list survives `cte` (BigQuery / Hive drop it).
+    hooks = translator_hooks(src)
+    for nm in ("map", "reduce"):
+        if nm not in list_ok:
+            continue
+        key = "FromRelationVisitor::" + nm
+        for d, h in sorted(hooks.items()):
+            by_alias = alias_fine.get(nm, False) and h["alias_kept"]
+            by_list = list_ok[nm] and h["list_kept"]
+            rep.instance("E8", "%s@names/%s" % (key, d), {"node": nm, "dialect": d, "named_by_aliases": by_alias, "named_by_cte_column_list": by_list}, nontrivial=False)
+            if not by_alias and not by_list and alias_fine.get(nm, False):
+                # (when the aliases themselves are wrong the violation above already names the construct)
+                what = []
+                if not list_ok[nm]:
+                    what.append("the CTE column list is not derived from the node's schema (%s)" % list_where[nm][0])
+                elif not h["list_kept"]:
+                    what.append("%s::cte drops the column list" % d)
+                if not h["alias_kept"]:
+                    what.append("%s::query does not pass the select items on with their aliases (%s)" % (d, h["alias_why"]))
+                rep.violation("E8", "%s@columns" % key if not list_ok[nm] else "%s@names/%s" % (key, d), "for %s the columns of a rendered %s have no name: %s" % (d, nm.capitalize(), " and ".join(what)), list_where[nm][1] if not list_ok[nm] else h["where"])
+                if not list_ok[nm]:
+                    break
 
 
 def e9(rep, src):
